@@ -33,7 +33,7 @@ func main() {
 			run.Infra("case decode: " + err.Error())
 			return
 		}
-		for _, tc := range []vlib.TConc{{}, {Extreme: true, StrMode: 1 + (i+int(run.Seed))%3}} {
+		for _, tc := range []vlib.TConc{{}, {Extreme: true, StrMode: 1 + (i+int(run.Seed))%3}, {Wire: 1 + (i+int(run.Seed))%18}} {
 			check(raw, &c, tc, i)
 		}
 		if i%800 == 0 {
@@ -42,7 +42,7 @@ func main() {
 	})
 	randomDriver()
 	bulkPart()
-	run.Finish("cases = Codec.tla catalogue: label shapes (0..3 values per key, every order of empty/non-empty string values and of {0,n} x {no unit, unit}), ids around the dense/sparse threshold incl. huge ones, unused and shared entities, 0..3 inline lines, 0..4 locations per sample and 0..4 sample types (packed threshold), header variants, nil/empty period type; each concretised twice (plain; int64/uint64 extremes + decorated/non-UTF8 strings) and pushed through Write/WriteUncompressed x Parse/ParseData/ParseUncompressed, Copy and `pprof -proto`; non-trivial = profile for which Norm changes something or that uses sparse ids, packed fields or multi-valued labels, distinct by profile")
+	run.Finish("cases = Codec.tla catalogue: label shapes (0..3 values per key, every order of empty/non-empty string values and of {0,n} x {no unit, unit}), ids around the dense/sparse threshold incl. huge ones, unused and shared entities, 0..3 inline lines, 0..4 locations per sample and 0..4 sample types (packed threshold), header variants, nil/empty period type; each concretised three times (plain; int64/uint64 extremes + decorated/non-UTF8 strings; values and addresses at the varint length boundaries 2^7k - 1, 2^7k of the wire format) and pushed through Write/WriteUncompressed x Parse/ParseData/ParseUncompressed, Copy and `pprof -proto`; non-trivial = profile for which Norm changes something or that uses sparse ids, packed fields or multi-valued labels, distinct by profile")
 }
 
 // bulkPart: the same round-trip law on valid profiles that are large and extremely redundant (the compressed form is
@@ -187,6 +187,9 @@ func check(raw json.RawMessage, c *ccase, tc vlib.TConc, idx int) {
 	tag := "plain"
 	if tc.Extreme {
 		tag = "extreme"
+	}
+	if tc.Wire > 0 {
+		tag = "wire"
 	}
 	for _, v := range variants() {
 		func() {
